@@ -432,6 +432,71 @@ def r13_5(ctx, rc):
     r7_1(ctx, rc)
 
 
+def r13_7(ctx, rc):
+    """What is recorded as an output's comparison result is a sample taken
+    now, with the mode of the record it is stored in - never the result
+    copied from another record (the cached one may have been taken with a
+    different mode: a digest stored as a METADATA result never compares
+    equal again, a METADATA pair stored as a digest hides a change)."""
+    R = ctx.R
+    prog = ctx.prog
+    fcr0 = R.executor + '.file_comparison_result'
+    fresh = {fcr0}
+    grew = True
+    while grew:
+        grew = False
+        for f in prog.funcs.values():
+            if f.qualname in fresh or f.name in ('exec', 'read'):
+                continue
+            if (f.cls == R.executor or f.cls == R.builder) and any(
+                    isinstance(g, Func) and g.qualname in fresh
+                    for c in prog.calls_in(f)
+                    for g in prog.resolve_call(c, f)) and \
+                    len(f.params) == 2:
+                fresh.add(f.qualname)
+                grew = True
+    n = 0
+    for f in prog.funcs.values():
+        if f.cls != R.builder:
+            continue
+        cfg = ctx.E.cfgs.get(f)
+        for cn in cfg.nodes:
+            st = cn.ast
+            if cn.kind != 'stmt' or not isinstance(st, ast.Assign):
+                continue
+            if not any(isinstance(t, ast.Attribute) and
+                       t.attr == 'file_comparison_result'
+                       for t in st.targets):
+                continue
+            n += 1
+            org = ctx.H.origins(st.value, f, cn,
+                                stop=lambda nm: nm in fresh)
+            copied = [o for o in org if o[0] in ('attr', 'field') and
+                      str(o[-1]) == 'file_comparison_result']
+            sampled = [o for o in org if o[0] == 'call' and o[1] in fresh]
+            key = 'comparison result stored in ' + f.qualname
+            none_only = bool(org) and all(
+                o[0] == 'const' and str(o[1]) == 'None' for o in org)
+            if none_only:
+                # "there is no regular file": the outcome of a sample that
+                # raised, stored by its handler
+                rc.ok({'function': f.qualname, 'from': 'None'}, key=key)
+                continue
+            if copied or not sampled:
+                rc.violation(
+                    'result-not-sampled | ' + f.qualname,
+                    '%s stores a comparison result that %s: the record keeps '
+                    'a result that was not taken now with its own mode' % (
+                        f.qualname, 'is copied from another record'
+                        if copied else 'does not come from a fresh sample'),
+                    prog.loc(f, st), key=key)
+            else:
+                rc.ok({'function': f.qualname, 'from': sorted(
+                    str(o[1]) for o in sampled)}, key=key)
+    if n < 2:
+        raise AnalysisError('only %d stores of a comparison result' % n)
+
+
 def r13_6(ctx, rc):
     """A comparison sample (stat or digest) is only taken of a file the
     virtual view has just declared visible: in ``read`` the kernel
@@ -442,6 +507,10 @@ def r13_6(ctx, rc):
     function runs (R4.5)."""
     from .c04 import r4_5
     r4_5(ctx, rc)
+    # ... and a replayed read sees the outputs replayed before it: the
+    # overlay of the enclosing record is threaded through (R5.4)
+    from .c05 import r5_4
+    r5_4(ctx, rc)
     ex = ctx.R.executor
     Rd = ctx.E.func(ex + '.read')
     sg = ctx.E.super(Rd, lambda g: False)
@@ -477,4 +546,5 @@ RULES = [
     ('R13.4', 'the recorded mode is the replayed mode', r13_4),
     ('R13.5', 'paths are normalised before they key memo and records', r13_5),
     ('R13.6', 'samples are taken of visible, finished files only', r13_6),
+    ('R13.7', 'recorded comparison results are fresh samples', r13_7),
 ]
